@@ -26,6 +26,7 @@ EXPLANATION = (
     ' (R3) attributes of class objects assigned from functions are process-wide state (exempt: a transaction counter written only in ModbusTcpProtocolCommand.request_bytes and read nowhere else).'
     ' (R6) the in-place decoders (read_value / read of shared definitions) never read an attribute of self that methods assign before this call has assigned it: a decode cannot depend on what an earlier decode left behind.'
     ' (R7, shared with C03.R4) the Modbus/TCP transaction counter - the one piece of state all inverter objects share - is advanced and encoded by a total function of the counter value (2 big-endian unsigned bytes over its whole range), so what another object sent can change the two id bytes and nothing else.'
+    ' (R8, shared with C19.R6) the schedule type another object\'s read left on a shared schedule group is overwritten on every path before the group is encoded.'
 )
 
 MUTATORS = {"append", "extend", "insert", "pop", "remove", "clear", "update", "setdefault", "popitem", "sort", "reverse", "add", "discard"}
@@ -203,6 +204,13 @@ def check(ctx: Ctx, rep: Report):
     for o in _s7.obligations:
         if o.rule == "C03.R4" and o.key == "next-tx":
             rep.obligations.append(type(o)("C20.R7", o.key, o.where, o.what, o.status, o.detail))
+    rep.rule("C20.R8", "the schedule group definitions are shared and decode in place (known finding of R1): what another object's read left on them is overwritten - set_schedule_type(ScheduleType.ECO_MODE, ...) - on every path before the group is encoded, so one object's eco-mode write never depends on another object's reads (shared with C19.R6)", 4)
+    from .c19 import r6 as _c19_r6
+    _s8 = _R7("C19", rep.tier)
+    _c19_r6(ctx, _s8)
+    for o in _s8.obligations:
+        if o.rule == "C19.R6":
+            rep.obligations.append(type(o)("C20.R8", o.key, o.where, o.what, o.status, o.detail and o.detail + " - and that type is whatever any inverter object of the process decoded last"))
     # ---- R2
     inv = prog.cls("Inverter")
     for ci in prog.all_subclasses(inv, include_self=False):
